@@ -1117,6 +1117,29 @@ Proof.
     apply radius_kernel_mirror; assumption.
 Qed.
 
+(* ------------------------------------------------------------------ the constructor establishes the shape hypotheses *)
+(* "assert weights.shape[i] % 2 == 1" + "pad_sizes = [v // 2 for v in shape]":  shape = 2 * pad + 1, pad >= 0 *)
+Lemma mk_fconv_odd {K} `{Num K} (g : grid) (w : arr3 K) (bx0 bx1 by0 by1 bz0 bz1 : bmode K) upts kx ky kz :
+  shape3 w = (kx, ky, kz) -> kx mod 2 = 1 -> ky mod 2 = 1 -> kz mod 2 = 1 ->
+  let f := mk_fconv g w bx0 bx1 by0 by1 bz0 bz1 upts in
+  let c := fc_pad f in
+  pads_nonneg c /\ shape3 (fc_w f) = (2 * ppx c + 1, 2 * ppy c + 1, 2 * ppz c + 1) /\
+  pg c = g /\ fc_w f = w /\
+  (mx0 c, mx1 c, my0 c, my1 c, mz0 c, mz1 c) = (bx0, bx1, by0, by1, bz0, bz1).
+Proof.
+  intros Hs Hx Hy Hz. unfold mk_fconv. rewrite Hs. cbn [fc_pad fc_w ppx ppy ppz pg mx0 mx1 my0 my1 mz0 mz1].
+  assert (Lx : 0 <= kx) by (unfold shape3 in Hs; injection Hs as <- _ _; lia).
+  assert (Ly : 0 <= ky) by (unfold shape3 in Hs; injection Hs as _ <- _; lia).
+  assert (Lz : 0 <= kz) by (unfold shape3 in Hs; injection Hs as _ _ <-; lia).
+  pose proof (Z.div_mod kx 2 ltac:(lia)). pose proof (Z.div_mod ky 2 ltac:(lia)). pose proof (Z.div_mod kz 2 ltac:(lia)).
+  assert (0 <= kx / 2) by (apply Z.div_pos; lia).
+  assert (0 <= ky / 2) by (apply Z.div_pos; lia).
+  assert (0 <= kz / 2) by (apply Z.div_pos; lia).
+  split; [unfold pads_nonneg; cbn; lia|].
+  split; [rewrite Hs; f_equal; [f_equal|]; lia|].
+  auto.
+Qed.
+
 (* ------------------------------------------------------------------ set_filter_radius never pads beyond the domain *)
 Lemma radius_delem_le (r dx : Q) (n : Z) : radius_delem r dx n <= n.
 Proof. unfold radius_delem. apply Z.le_min_l. Qed.
